@@ -102,6 +102,7 @@ MinerChecks(M, g, e) ==
   /\ Chk("C04", "DlMemos", DlMemos(M), "-", e)
   /\ Chk("C04", "EarlyDls", EarlyDls(M), "-", e)
   /\ Chk("C04", "QueueOK", QueueOK(M), "-", e)
+  /\ Chk("C04", "DlQueueCovers", DlQueueCovers(M), "-", e)
   /\ Chk("C04", "AllocCovers", AllocCovers(M), "-", e)
   /\ Chk("C03", "PledgeExact", PledgeExact(M), "-", e)
   /\ Chk("C03", "DepositsExact", DepositsExact(M), "-", e)
@@ -135,6 +136,11 @@ TStep ==
           /\ \A i \in Idx(e.st.miners) : (i <= Len(Wd.miners) /\ Wd.miners[i] = e.st.miners[i]) \/ MinerChecks(e.st.miners[i], G, e)
           /\ Chk("C02", "PowerIsActive", PowerIsActiveExcept(e.st, G'.lost), "-", e)
           /\ Chk("C02", "TotalsOK", TotalsOK(e.st), "-", e)
+          /\ Chk("C02", "ProvenOnlyByPoSt", ProvenOnlyByPoSt(Wd, e), "-", e)
+          /\ Chk("C02", "RecoveredOnlyByPoSt", RecoveredOnlyByPoSt(Wd, e), "-", e)
+          /\ Chk("C02", "SkippedFaulted", SkippedFaulted(e), "-", e)
+          /\ Chk("C02", "MissedPoStFaulted", MissedPoStFaulted(Wd, e, G'.lost), "-", e)
+          /\ Chk("C04", "NumbersFresh", NumbersFresh(Wd, e), "-", e)
           /\ Chk("C03", "NetPledgeTotal", NetPledgeLiteral(e.st),
                  IF NetPledgeAdjusted(e.st, Dep0Sum(e.st, G)) THEN "F1-creation-deposit" ELSE "-", e)
           /\ Chk("C03", "NetPledgeNonNeg", NetPledgeNonNeg(e.st), "-", e)
